@@ -786,7 +786,23 @@ func (a *factAnalysis) addAtomFacts(st *fstate, at atom, cond ast.Expr) {
 		// variable is defined once, by an expression over values that do not change
 		// afterwards, so what is known about the variable is known about the expression
 		if v := f.varOf(x); v != nil && a.expanding < 3 {
-			if defs := f.defsOf(v); len(defs) == 1 && !defs[0].multi && defs[0].rhs != nil {
+			defs := f.defsOf(v)
+			// definitions by the constant of the opposite truth value cannot be the one that
+			// made the variable what it is now known to be: `failed := false; ...; failed =
+			// err != nil` known true means the second definition ran and held
+			if len(defs) > 1 {
+				var rest []vdef
+				for _, d := range defs {
+					if d.rhs != nil && !d.multi {
+						if cv, ok := f.enclosing(d.rhs).ConstVal(d.rhs); ok && (cv == "true") != at.truth && (cv == "true" || cv == "false") {
+							continue
+						}
+					}
+					rest = append(rest, d)
+				}
+				defs = rest
+			}
+			if len(defs) == 1 && !defs[0].multi && defs[0].rhs != nil {
 				rhs := ast.Unparen(defs[0].rhs)
 				_, isBin := rhs.(*ast.BinaryExpr)
 				_, isNot := rhs.(*ast.UnaryExpr)
